@@ -527,6 +527,7 @@ func runC01(c *Ctx) {
 	checkByteArrayKeySource(r, p)
 	checkElementsThroughCodec(r, p)
 	checkCountNotComparedWithBytes(r, p)
+	checkTrustedHelpers(r, p, []trustedHelper{{Pkg: "serializer/byteutils", Name: "ConcatBytes"}})
 	// (1) dispatch mirror
 	for _, pair := range [][2]string{{"encodeBasedOnType", "decodeBasedOnType"}, {"mapEncodeBasedOnType", "mapDecodeBasedOnType"}} {
 		enc, dec := p.FuncDecl(pkgSerix, "API", pair[0]), p.FuncDecl(pkgSerix, "API", pair[1])
@@ -2595,6 +2596,7 @@ func runC03(c *Ctx) {
 	r := c.R
 	checkBoundsBeforeSuccess(r, p)
 	checkStickyErrorSurfaced(r, p)
+	checkTrustedHelpers(r, p, []trustedHelper{{Pkg: "serializer/byteutils", Name: "ConcatBytes"}})
 	// (1) endianness
 	count := func(prog *Prog, pkgs []string) (nonLittle []string, nLittle, nRW int, badRW []string) {
 		for _, pkg := range pkgs {
